@@ -69,7 +69,7 @@ class G:
         if r < 0.45:
             return ('opassign', v, self.r.choice(['+', '-', '*']), self.arith(1, vars_))
         if r < 0.7:
-            return ('print', self.r.choice(['s ', 'tab\\there ', 'q\\"uote ', 'n ', '', 'say \\"hi\\"', ' \\"']), self.arith(1, vars_ + ['x']))
+            return ('print', self.r.choice(['s ', 'tab\\there ', 'q\\"uote ', 'n ', '', 'say \\"hi\\"', ' \\"', 'dir \\"C:\\\\tmp\\\\\\" n ', 'b\\\\ ']), self.arith(1, vars_ + ['x']))
         if r < 0.82 and d > 0:
             return ('if', self.cond(1, vars_ + ['x']), [self.stmt(d - 1, vars_)], [self.stmt(d - 1, vars_)] if self.r.random() < 0.5 else None)
         if r < 0.9:
@@ -194,7 +194,7 @@ class Ref:
             self.vars[s[1]] = x + y if s[2] == '+' else x - y if s[2] == '-' else x * y
         elif k == 'print':
             v = self.ev(s[2])
-            txt = s[1].replace('\\t', '\t').replace('\\"', '"')
+            txt = _unescape(s[1])
             self.out.append(txt + _show(v) + '\n')
         elif k == 'if':
             if self.ev(s[1]):
@@ -216,6 +216,19 @@ class Ref:
                     self.vars.pop(s[1], None)
                 else:
                     self.vars[s[1]] = saved
+
+
+def _unescape(t):
+    """the characters a WAWK string literal with the escapes \\t \\" \\\\ denotes"""
+    out, i = [], 0
+    while i < len(t):
+        if t[i] == '\\' and i + 1 < len(t):
+            out.append({'t': '\t', '"': '"', '\\': '\\', 'n': '\n'}.get(t[i + 1], t[i + 1]))
+            i += 2
+        else:
+            out.append(t[i])
+            i += 1
+    return ''.join(out)
 
 
 def _show(v):
